@@ -20,7 +20,7 @@ from common import FILL, sx
 
 HIST = ["edge_node_connectivity", "face_edge_connectivity", "edge_face_connectivity", "node_face_connectivity",
         "face_face_connectivity", "n_nodes_per_face", "face_areas", "face_lon", "edge_lon", "node_x", "face_x",
-        "edge_x", "edge_node_distances", "hole_edge_indices"]
+        "edge_x", "edge_node_distances", "hole_edge_indices", "edge_face_distances", "bounds", "face_jacobian"]
 MARGIN = 1e-6
 # earlier tree requests of OTHER element kinds (the selection's own tree must not be the stale one)
 HIST += ["tree:kd:nodes", "tree:kd:face centers", "tree:kd:edge centers", "tree:ball:nodes", "tree:ball:face centers",
@@ -97,6 +97,8 @@ class Src:
         self.edge_lat = g.edge_lat.values.copy()
         self.node_z = g.node_z.values.copy()
         self.areas = g.face_areas.values.copy()
+        self.efd = g.edge_face_distances.values.copy()
+        self.end = g.edge_node_distances.values.copy()
         self.npos = [(float(a), float(b)) for a, b in zip(self.lon, self.lat)]
 
     def face_pos(self, f):
@@ -377,6 +379,17 @@ def check_result(src, sel, r, deep=True):
         for i, n in enumerate(rec_n):
             if abs(float(nz[i]) - float(src.node_z[n])) > 1e-12:
                 return "derived_node_xyz_vs_source"
+        # edge distances: an edge keeps its node distance; its centre-to-centre distance is the source's when both of its
+        # faces were selected and zero when the selection left it a single face (a boundary edge of the result)
+        rend, refd = r.edge_node_distances.values, r.edge_face_distances.values
+        chosen = set(rec_f)
+        for k, se in enumerate(rec_e):
+            if not math.isclose(float(rend[k]), float(src.end[se]), rel_tol=1e-11, abs_tol=1e-14):
+                return "derived_edge_node_distances_vs_source"
+            both = len(src.edge_faces[se] & chosen) >= 2
+            want_d = float(src.efd[se]) if both else 0.0
+            if not math.isclose(float(refd[k]), want_d, rel_tol=1e-11, abs_tol=1e-14):
+                return "derived_edge_face_distances_vs_source"
     except Exception as ex:
         return "derived_raises:" + type(ex).__name__
     return None
